@@ -79,6 +79,7 @@ class Task:
             pass
         self.ip = Interp(self.ctx, self.index, cs, ns)
         self.ip.active_contract = c
+        self.ip.prune_forks = bool(getattr(c, 'prune', False))
         if c.which == 'setter' or getattr(c, 'tag', None):
             # loop contracts etc. are looked up by key: make this contract the one for its key
             cs[c.key] = c
@@ -405,9 +406,32 @@ def discharge(task: Task, timeout_ms=20000, keep_smt=0):
                                                     tactics=False)
         else:
             hyps = base + list(o.hyps)
+            qf = [h for h in hyps if not has_quantifier(h)]
             if getattr(o, 'qf_only', False):
                 # lemma over the quantifier-free facts only (a weaker hypothesis set: still sound)
-                hyps = [h for h in hyps if not has_quantifier(h)]
+                hyps = qf
+            elif len(qf) < len(hyps) and o.goal is not None:
+                # first attempt without the quantified hypotheses (a weaker set, so 'unsat' is conclusive and
+                # usually immediate); only if that does not succeed is the full set used
+                r0 = check(qf, o.goal, min(timeout_ms, 3000), expect=o.expect, use_cvc5=False, tactics=False,
+                           want_model=False)
+                if r0[0] == 'unsat':
+                    o.result, o.time, o.backend, o.model = 'unsat', r0[1], 'z3 (quantifier-free hypotheses)', None
+                    continue
+                # quantified obligations: the Debian z3 4.8.12 (CLI, on the SMT-LIB dump) instantiates these far
+                # more reliably than the 5.1 wheel; an 'unsat' from it is conclusive
+                from .solve import run_cli
+                import time as _time
+                t_cli = _time.time()
+                sv = z3.Solver()
+                for h in hyps:
+                    sv.add(h)
+                sv.add(z3.Not(o.goal))
+                r1 = run_cli(['/usr/bin/z3', f'-T:{max(2, int(min(timeout_ms, 15000) / 1000))}'], sv.to_smt2(),
+                             min(timeout_ms, 15000))
+                if r1 == 'unsat':
+                    o.result, o.time, o.backend, o.model = 'unsat', r0[1] + _time.time() - t_cli, 'z3-4.8.12-cli', None
+                    continue
             res, secs, backend, model, smt2 = check(hyps, o.goal, timeout_ms, expect=o.expect)
         o.result, o.time, o.backend = res, secs, backend
         o.model = model
